@@ -43,6 +43,7 @@ class ULPIRegisterWindow(Elaboratable):
 
         # Controller signals:
         O: busy              -- indicates when the register window is busy processing a transaction
+        O: read_busy         -- indicates that the PHY is returning register-read data on the bus
         I: address[6]        -- the address of the register to work with
         O: done              -- strobe that indicates when a register request is complete
 
@@ -71,6 +72,7 @@ class ULPIRegisterWindow(Elaboratable):
         self.ulpi_stop     = Signal()
 
         self.busy          = Signal()
+        self.read_busy     = Signal()
         self.address       = Signal(6)
         self.done          = Signal()
 
@@ -98,6 +100,9 @@ class ULPIRegisterWindow(Elaboratable):
 
             # We're busy whenever we're not IDLE; indicate so.
             m.d.comb += self.busy.eq(~fsm.ongoing('IDLE'))
+
+            # The PHY only answers with (non-RxCmd) register data at the very end of a read.
+            m.d.comb += self.read_busy.eq(fsm.ongoing('READ_TURNAROUND') | fsm.ongoing('READ_COMPLETE'))
 
             # IDLE: wait for a request to be made
             with m.State('IDLE'):
@@ -877,7 +882,9 @@ class UTMITranslator(Elaboratable):
 
             # Connect our data inputs to the event decoder.
             # Note that the event decoder is purely passive.
-            rxevent_decoder.register_operation_in_progress.eq(register_window.busy),
+            # Only register-read data must be kept away from the RxCmd decoder: RxCmds that arrive while a
+            # register write is pending (or waiting for the bus) are genuine, and must not be dropped.
+            rxevent_decoder.register_operation_in_progress.eq(register_window.read_busy),
             self.last_rx_command          .eq(rxevent_decoder.last_rx_command),
 
             # Connect our inputs to our transmit translator.
